@@ -67,7 +67,7 @@ Proof.
   apply NoDup_remove_2 in H. apply H. apply in_or_app. left. exact Hin.
 Qed.
 
-Definition at_node (c : chain) (pre : chain) (id : nat) (r : recs) (rest : chain) (p : nat) (pend : pending) : cursor :=
+Definition at_node (pre : chain) (id : nat) (r : recs) (rest : chain) (p : nat) (pend : pending) : cursor :=
   {| c_cn := Some {| cc_node := CnNode id; cc_pnum := length r; cc_p0 := last_id_or None pre; cc_n0 := nid_of rest |};
      c_pos := p; c_skip := 0%Z; c_pend := pend |}.
 
@@ -79,15 +79,32 @@ Proof.
   - apply IH. exact H.
 Qed.
 
-Lemma scan_from_node : forall fuel pre id r rest p pend,
-  ids_unique (pre ++ (id, r) :: rest) ->
+Lemma find_at (c pre : chain) id r rest : c = pre ++ (id, r) :: rest -> ids_unique c ->
+  find_node None c id = Some (last_id_or None pre, r, nid_of rest).
+Proof. intros -> Hu. apply find_node_app. eapply unique_split. exact Hu. Qed.
+
+Lemma read_at (c pre : chain) id r rest p pend e : c = pre ++ (id, r) :: rest -> ids_unique c ->
+  nth_error r p = Some e -> cursor_read c (at_node pre id r rest p pend) = Some e.
+Proof.
+  intros Hc Hu He. unfold Cursor.cursor_read, cursor_at, at_node. cbn [c_cn cc_node c_pos cc_pnum].
+  assert (Hlt : Nat.ltb p (length r) = true).
+  { apply Nat.ltb_lt. apply nth_error_Some. congruence. }
+  rewrite Hlt. cbv iota. rewrite (find_at c pre id r rest Hc Hu). exact He.
+Qed.
+
+Lemma load_at (c pre : chain) id r rest : c = pre ++ (id, r) :: rest -> ids_unique c ->
+  load_node c id = Some {| cc_node := CnNode id; cc_pnum := length r; cc_p0 := last_id_or None pre; cc_n0 := nid_of rest |}.
+Proof. intros Hc Hu. unfold Cursor.load_node. rewrite (find_at c pre id r rest Hc Hu). reflexivity. Qed.
+
+Lemma scan_from_node : forall fuel c pre id r rest p pend,
+  c = pre ++ (id, r) :: rest ->
+  ids_unique c ->
   nonempty_nodes rest ->
   p < length r ->
   length (skipn (S p) r ++ flat rest) < fuel ->
-  scan_next fuel (pre ++ (id, r) :: rest) (at_node (pre ++ (id, r) :: rest) pre id r rest p pend)
-  = skipn (S p) r ++ flat rest.
+  scan_next fuel c (at_node pre id r rest p pend) = skipn (S p) r ++ flat rest.
 Proof.
-  induction fuel as [|fuel IH]; intros pre id r rest p pend Hu Hne Hp Hf; [lia|].
+  induction fuel as [|fuel IH]; intros c pre id r rest p pend Hc Hu Hne Hp Hf; [lia|].
   cbn [scan_next cursor_to at_node c_cn c_pend c_skip c_pos cc_pnum cc_n0 cc_node].
   change (0 <? 0)%Z with false. cbv iota.
   destruct (Nat.leb (length r) (p + 1)) eqn:El.
@@ -95,38 +112,20 @@ Proof.
     apply Nat.leb_le in El.
     assert (Hs : skipn (S p) r = []) by (apply skipn_all2; lia).
     rewrite Hs in *. cbn [app] in *.
-    destruct rest as [|[n rn] rest']; cbn [nid_of].
+    destruct rest as [|[n rn] rest']; cbn [Node.nid_of].
     + reflexivity.
-    + (* load the next node *)
-      assert (Hload : load_node (pre ++ (id, r) :: (n, rn) :: rest') n
-                      = Some {| cc_node := CnNode n; cc_pnum := length rn;
-                                cc_p0 := last_id_or None (pre ++ [(id, r)]); cc_n0 := nid_of rest' |}).
-      { unfold Cursor.load_node.
-        replace (pre ++ (id, r) :: (n, rn) :: rest') with ((pre ++ [(id, r)]) ++ (n, rn) :: rest')
-          by (rewrite <- app_assoc; reflexivity).
-        rewrite find_node_app; [reflexivity|].
-        apply unique_split with (r := rn) (rest := rest'). rewrite <- app_assoc. exact Hu. }
-      rewrite Hload. cbv iota beta.
-      inversion Hne as [|? ? Hrn Hne']; subst. cbn [snd] in Hrn.
+    + assert (Hc' : c = (pre ++ [(id, r)]) ++ (n, rn) :: rest') by (rewrite Hc, <- app_assoc; reflexivity).
+      rewrite (load_at c (pre ++ [(id, r)]) n rn rest' Hc' Hu). cbv iota beta.
+      inversion Hne as [|x0 l0 Hrn Hne' Heq]. cbn [snd] in Hrn.
       destruct rn as [|e0 rn']; [congruence|].
-      (* the cursor now is at_node ... 0 *)
-      set (c := pre ++ (id, r) :: (n, e0 :: rn') :: rest') in *.
-      assert (Hcur : {| c_cn := Some {| cc_node := CnNode n; cc_pnum := length (e0 :: rn');
-                                        cc_p0 := last_id_or None (pre ++ [(id, r)]); cc_n0 := nid_of rest' |};
-                        c_pos := 0; c_skip := 0%Z; c_pend := pend |}
-                     = at_node c (pre ++ [(id, r)]) n (e0 :: rn') rest' 0 pend) by reflexivity.
-      rewrite Hcur.
-      assert (Hc : c = (pre ++ [(id, r)]) ++ (n, e0 :: rn') :: rest') by (unfold c; rewrite <- app_assoc; reflexivity).
-      assert (Hread : cursor_read c (at_node c (pre ++ [(id, r)]) n (e0 :: rn') rest' 0 pend) = Some e0).
-      { unfold Cursor.cursor_read, cursor_at, at_node. cbn [c_cn cc_node c_pos cc_pnum length].
-        change (Nat.ltb 0 (S (length rn'))) with true. cbv iota.
-        rewrite Hc. rewrite find_node_app; [reflexivity|].
-        apply unique_split with (r := e0 :: rn') (rest := rest'). rewrite <- Hc. exact Hu. }
-      rewrite Hread. rewrite flat_cons_eq. cbn [snd app]. f_equal.
-      rewrite Hc. rewrite IH.
+      change {| c_cn := Some {| cc_node := CnNode n; cc_pnum := length (e0 :: rn');
+                                cc_p0 := last_id_or None (pre ++ [(id, r)]); cc_n0 := nid_of rest' |};
+                c_pos := 0; c_skip := 0%Z; c_pend := pend |}
+        with (at_node (pre ++ [(id, r)]) n (e0 :: rn') rest' 0 pend).
+      rewrite (read_at c (pre ++ [(id, r)]) n (e0 :: rn') rest' 0 pend e0 Hc' Hu eq_refl).
+      rewrite flat_cons_eq. cbn [snd app]. f_equal.
+      rewrite (IH c (pre ++ [(id, r)]) n (e0 :: rn') rest' 0 pend Hc' Hu Hne').
       * reflexivity.
-      * rewrite <- Hc. exact Hu.
-      * exact Hne'.
       * cbn [length]. lia.
       * rewrite flat_cons_eq in Hf. cbn [snd app length skipn] in *. lia.
   - (* next slot of the same node *)
@@ -134,19 +133,14 @@ Proof.
     assert (Hnth : exists e, nth_error r (p + 1) = Some e).
     { destruct (nth_error r (p + 1)) eqn:E; [eauto|]. apply nth_error_None in E. lia. }
     destruct Hnth as [e He].
-    set (c := pre ++ (id, r) :: rest) in *.
-    assert (Hcur : {| c_cn := Some {| cc_node := CnNode id; cc_pnum := length r; cc_p0 := last_id_or None pre; cc_n0 := nid_of rest |};
-                      c_pos := p + 1; c_skip := 0%Z; c_pend := pend |} = at_node c pre id r rest (p + 1) pend) by reflexivity.
-    rewrite Hcur.
-    assert (Hread : cursor_read c (at_node c pre id r rest (p + 1) pend) = Some e).
-    { unfold Cursor.cursor_read, cursor_at, at_node. cbn [c_cn cc_node c_pos cc_pnum].
-      assert (Hlt : Nat.ltb (p + 1) (length r) = true) by (apply Nat.ltb_lt; lia). rewrite Hlt. cbv iota.
-      unfold c. rewrite find_node_app; [exact He|]. eapply unique_split; exact Hu. }
-    rewrite Hread.
+    change {| c_cn := Some {| cc_node := CnNode id; cc_pnum := length r; cc_p0 := last_id_or None pre; cc_n0 := nid_of rest |};
+              c_pos := p + 1; c_skip := 0%Z; c_pend := pend |}
+      with (at_node pre id r rest (p + 1) pend).
+    rewrite (read_at c pre id r rest (p + 1) pend e Hc Hu He).
     replace (S p) with (p + 1) by lia.
     rewrite (skipn_nth_cons _ r (p + 1) e He). cbn [app]. f_equal.
-    unfold c. rewrite IH; [reflexivity|exact Hu|exact Hne|lia|].
-    rewrite (skipn_nth_cons _ r (p + 1) e He) in Hf. replace (S p) with (p + 1) in Hf by lia. cbn [app length] in Hf. lia.
+    rewrite (IH c pre id r rest (p + 1) pend Hc Hu Hne); [reflexivity|lia|].
+    replace (S p) with (p + 1) in Hf by lia. rewrite (skipn_nth_cons _ r (p + 1) e He) in Hf. cbn [app length] in Hf. lia.
 Qed.
 
 (* C02: from before-first, NEXT enumerates the whole chain *)
@@ -162,23 +156,18 @@ Proof.
   assert (Hle : Nat.leb IDXNUM (IDXNUM - 1 + 1) = true) by (apply Nat.leb_le; lia). rewrite Hle.
   destruct c as [|[n rn] rest]; cbn [Node.nid_of].
   - reflexivity.
-  - assert (Hload : load_node ((n, rn) :: rest) n
-                    = Some {| cc_node := CnNode n; cc_pnum := length rn; cc_p0 := None; cc_n0 := nid_of rest |}).
-    { unfold Cursor.load_node. cbn [Node.find_node]. rewrite Nat.eqb_refl. reflexivity. }
-    rewrite Hload. cbv iota beta.
+  - assert (Hc : @cons (node K V) (n, rn) rest = @app (node K V) [] (@cons (node K V) (n, rn) rest)) by reflexivity.
+    rewrite (load_at _ [] n rn rest Hc Hu). cbv iota beta.
     inversion Hne as [|? ? Hrn Hne']; subst. cbn [snd] in Hrn.
     destruct rn as [|e0 rn']; [congruence|].
-    assert (Hcur : {| c_cn := Some {| cc_node := CnNode n; cc_pnum := length (e0 :: rn'); cc_p0 := None; cc_n0 := nid_of rest |};
-                      c_pos := 0; c_skip := 0%Z; c_pend := PNone |}
-                   = at_node ((n, e0 :: rn') :: rest) [] n (e0 :: rn') rest 0 PNone) by reflexivity.
-    rewrite Hcur.
-    assert (Hread : cursor_read ((n, e0 :: rn') :: rest) (at_node ((n, e0 :: rn') :: rest) [] n (e0 :: rn') rest 0 PNone) = Some e0).
-    { unfold Cursor.cursor_read, cursor_at, at_node. cbn [c_cn cc_node c_pos cc_pnum length].
-      change (Nat.ltb 0 (S (length rn'))) with true. cbv iota. cbn [Node.find_node]. rewrite Nat.eqb_refl. reflexivity. }
-    rewrite Hread. rewrite flat_cons_eq. cbn [snd app]. f_equal.
-    change ((n, e0 :: rn') :: rest) with ([] ++ (n, e0 :: rn') :: rest).
-    rewrite scan_from_node; [reflexivity|exact Hu|exact Hne'|cbn [length]; lia|].
-    rewrite flat_cons_eq in Hf. cbn [snd app length skipn] in *. lia.
+    change {| c_cn := Some {| cc_node := CnNode n; cc_pnum := length (e0 :: rn'); cc_p0 := last_id_or None []; cc_n0 := nid_of rest |};
+              c_pos := 0; c_skip := 0%Z; c_pend := PNone |}
+      with (at_node [] n (e0 :: rn') rest 0 PNone).
+    rewrite (read_at _ [] n (e0 :: rn') rest 0 PNone e0 Hc Hu eq_refl).
+    rewrite flat_cons_eq. cbn [snd app]. f_equal.
+    apply (scan_from_node fuel _ [] n (e0 :: rn') rest 0 PNone Hc Hu Hne').
+    + cbn [length]. lia.
+    + rewrite flat_cons_eq in Hf. cbn [snd app length skipn] in *. lia.
 Qed.
 
 (* ---- list-level facts behind the fix-up loops: the cursor keeps pointing at its record ---- *)
@@ -198,7 +187,8 @@ Lemma remove_keeps_record (r : recs) (idx p : nat) : p <> idx ->
   nth_error (remove_at K V r idx) (if Nat.ltb idx p then p - 1 else p) = nth_error r p.
 Proof.
   revert idx p; induction r as [|x r IH]; intros idx p Hne.
-  - destruct idx; destruct p; simpl; try reflexivity; destruct (Nat.ltb _ _); destruct (p - 0); reflexivity.
+  - assert (Hnil : forall n, nth_error (@nil (K * V)) n = None) by (intros [|n]; reflexivity).
+    destruct idx; cbn [remove_at]; rewrite !Hnil; reflexivity.
   - destruct idx as [|idx]; cbn [remove_at].
     + destruct p as [|p]; [congruence|]. cbn [Nat.ltb Nat.leb nth_error]. replace (S p - 1) with p by lia. reflexivity.
     + destruct p as [|p]; [reflexivity|].
@@ -213,9 +203,8 @@ Qed.
 Lemma remove_current_successor (r : recs) (idx : nat) :
   nth_error (remove_at K V r idx) idx = nth_error r (S idx).
 Proof.
-  revert idx; induction r as [|x r IH]; intros [|idx]; simpl; try reflexivity.
-  - destruct idx; reflexivity.
-  - apply IH.
+  revert idx; induction r as [|x r IH]; intros [|idx]; cbn [remove_at nth_error]; try reflexivity.
+  apply IH.
 Qed.
 
 (* a split at the pivot: records behind the pivot are found in the new node at position - PIVOT *)
